@@ -92,6 +92,7 @@ def make_spectrum(real, nfft, vec, sampling=2.0):
     x = np.arange(1, nfft + 1, dtype=float) + (0 if real else 1j)
     p = Spectrum(x, NFFT=nfft, sampling=sampling)
     p.psd = np.array(vec, dtype=float)
+    p._c06_manual = True
     return p
 
 
@@ -114,8 +115,44 @@ def run_sequence(ctx, real, nfft, vec, seq, sampling=2.0, p=None):
     total = float(np.sum(base))
     changed = 0
     for path, s in seq:
+        if path == "sampling":
+            if getattr(p, "_c06_manual", False):
+                continue      # a hand-set PSD on the bare base class cannot be recomputed: no estimator behind it
+            # the sampling frequency is changed on the estimator: it recomputes; the model of the values is rebuilt
+            # from the new default representation, the axis must follow NFFT and the new sampling frequency
+            sampling = sampling * s
+            p.sampling = sampling
+            df = sampling / float(nfft)
+            cur = p.sides
+            vals = np.array(p.psd, dtype=float)
+            fr = p.frequencies()
+            ctx.check(len(fr) == len(vals), "after assigning sampling frequencies() has %d entries, psd %d (NFFT=%d, data length %d)"
+                      % (len(fr), len(vals), nfft, p.N), sig={"clause": "axis-after-sampling"})
+            ctx.check(abs(p.df - df) <= 1e-12 * df, "after assigning sampling df=%r, expected sampling/NFFT=%r" % (p.df, df),
+                      sig={"clause": "axis-after-sampling"})
+            ctx.check(p.sides == dflt, "recomputation after a sampling change left sides=%r" % p.sides)
+            base = vals
+            T = model_from_default(base, nfft, real)
+            total = float(np.sum(base))
+            continue
+        if s == "default":
+            s_name = dflt
+        else:
+            s_name = s
         before_sides = p.sides
         before = np.array(p.psd, dtype=float)
+        if s == "default":
+            # the documented alias of the native format of the datatype
+            if path == "attr":
+                p.sides = "default"
+                got = np.array(p.psd, dtype=float)
+                ctx.check(p.sides == dflt, "sides attribute is %r after assigning 'default' (%s data)" % (p.sides, p.datatype))
+                if dflt != before_sides:
+                    changed += 1
+                check_against_model(ctx, p, got, dflt, T, nfft, df, total, "%s->default(%s) via sides" % (before_sides, dflt))
+                ctx.check(np.array_equal(got, base), "returning to the native format through 'default' does not restore the original values: %s vs %s"
+                          % (got.tolist()[:10], base.tolist()[:10]), sig={"dst": "default"})
+            continue
         if not real and s == "onesided":
             # documented rejection: "If the datatype is complex, sides cannot be one-sided."
             try:
@@ -161,6 +198,11 @@ def enum_seq(tier):
                         for path in ("attr", "get"):
                             # 'get' path: assignments for all but the last step, get for the last
                             yield {"real": real, "nfft": nfft, "vec": vname, "seq": list(seq), "path": path}
+                # the alias 'default' (native format of the datatype) as a fourth symbol, sequences up to length 3 containing it
+                for l in range(1, 4):
+                    for seq in itertools.product(SIDES + ["default"], repeat=l):
+                        if "default" in seq:
+                            yield {"real": real, "nfft": nfft, "vec": vname, "seq": list(seq), "path": "attr"}
 
 
 @sub("C06.seq", enum=enum_seq, exhaustive=True, shards_quick=16, shards_thorough=16,
@@ -309,7 +351,10 @@ def obj_case(draw):
         nfft = draw(st.one_of(st.integers(x["n"], 64), st.sampled_from([x["n"], x["n"] + 1, 63, 64])))
         nfft = max(nfft, x["n"])
         vec = None
-    ops = draw(st.lists(st.tuples(st.sampled_from(["attr", "attr", "get"]), st.sampled_from(SIDES)), min_size=1, max_size=10))
+    op = st.one_of(st.tuples(st.sampled_from(["attr", "attr", "get"]), st.sampled_from(SIDES)),
+                   st.tuples(st.just("attr"), st.just("default")),
+                   st.tuples(st.just("sampling"), st.sampled_from([2.0, 0.5, 10.0])))
+    ops = draw(st.lists(op, min_size=1, max_size=10))
     return {"real": real, "kind": kind, "nfft": nfft, "vec": vec, "x": x, "ops": [list(o) for o in ops],
             "sampling": draw(st.sampled_from([1.0, 2.0, 1000.0]))}
 
